@@ -93,7 +93,10 @@ _i["ensures"] = _SET["ensures"][1:]
 _c("__init__",
    params={"self": "Note", "name": "str", "octave": "int", "dynamics": "None", "velocity": "None", "channel": "None"},
    requires=[("a-name-without-octave-suffix", NODASH)],
-   variants=[dict(name="from-int",
+   variants=[dict(name="with-empty-dynamics",
+                  params={"self": "Note", "name": "str", "octave": "int", "dynamics": "emptydict", "velocity": "None",
+                          "channel": "None"}),
+             dict(name="from-int",
                   params={"self": "Note", "name": "int", "octave": "int", "dynamics": "None", "velocity": "None",
                           "channel": "None"},
                   requires=[("non-negative", "name >= 0")], raises={},
